@@ -23,6 +23,10 @@ pub trait Config: Sync {
     fn parse_msg_ok(&self, bytes: &[u8]) -> PRes<()>;
     /// `ShipType::parse(code)` rendered, and `u8::from` of it when present
     fn shiptype_parse(&self, code: u8) -> PRes<(String, Option<u8>)>;
+    /// canonical one-line renderings for the fidelity pass (canon_body.rs, shared with exec_real)
+    fn canon_history(&self, lines: &[(Vec<u8>, bool)]) -> Vec<String>;
+    fn canon_parse(&self, bytes: &[u8]) -> String;
+    fn canon_unarmor(&self, data: &[u8], fill: usize) -> String;
 }
 
 pub mod cfg_std {
